@@ -35,6 +35,12 @@ type layout struct {
 	// Verbatim: the inner server name has upper-case letters and the inner ALPN list starts with an RFC 8701 GREASE id: both
 	// are reported exactly as they stand in the reconstructed hello
 	Verbatim bool `json:"mixed_case_name_and_grease_alpn,omitempty"`
+	// round 13 (buildWide): CommonN extensions stand in both hellos (Refs indexes into them); the ALPN list has ALPNNames
+	// two-octet names and is the inner hello's own extension or (ALPNCommon) one of the common ones, at index ALPNAt of them
+	CommonN    int  `json:"common_extension_count,omitempty"`
+	ALPNNames  int  `json:"alpn_name_count,omitempty"`
+	ALPNCommon bool `json:"alpn_is_a_common_extension,omitempty"`
+	ALPNAt     int  `json:"alpn_index_among_common,omitempty"`
 }
 
 const verbatimName = "Inner.SECRET.Example"
@@ -126,6 +132,133 @@ func buildLayout(key echx.KeyPair, l layout) echx.Spec {
 	}
 }
 
+// manyNames is a protocol name list of n distinct two-octet names (RFC 7301: opaque ProtocolName<1..2^8-1>).
+func manyNames(n int) []string {
+	out := make([]string, n)
+	for i := range out {
+		out[i] = string([]byte{byte(i >> 8), byte(i)})
+	}
+	return out
+}
+
+// wideCommon is the list of extensions that both hellos of a buildWide case carry: the six of shared(), then opaque
+// extensions of distinct unassigned types with 0..3 data bytes, up to n; the ALPN extension (if it is a common one) at ALPNAt.
+func wideCommon(l layout) []tlsref.Ext {
+	n := l.CommonN
+	if l.ALPNCommon {
+		n--
+	}
+	c := shared(l.BigShare)
+	for i := len(c); i < n; i++ {
+		c = append(c, tlsref.Opaque(uint16(0x4000+i), i%4))
+	}
+	c = c[:n]
+	if l.ALPNCommon {
+		c = slices.Insert(c, min(l.ALPNAt, len(c)), tlsref.ALPN(manyNames(l.ALPNNames)...))
+	}
+	return c
+}
+
+// buildWide builds a hello pair from a list of common extensions of any length: the outer hello carries all of them in order
+// (three layouts as in buildLayout), the encoded inner hello references those at l.Refs through one marker and carries the
+// others directly, in the same order.
+func buildWide(key echx.KeyPair, l layout) echx.Spec {
+	common := wideCommon(l)
+	var outer []tlsref.Ext
+	switch l.OuterKind {
+	case 0:
+		outer = append([]tlsref.Ext{tlsref.SNI("public.example")}, common...)
+		outer = append(outer, tlsref.Ext{Type: tlsref.ExtECH})
+	case 1:
+		outer = []tlsref.Ext{{Type: tlsref.ExtECH}, {Type: 0x0a0a}}
+		for i, e := range common {
+			outer = append(outer, e)
+			if i%7 == 0 {
+				outer = append(outer, tlsref.Opaque(uint16(0x5500+i), i%3))
+			}
+		}
+		outer = append(outer, tlsref.SNI("public.example"))
+	case 2:
+		h := len(common) / 2
+		outer = append([]tlsref.Ext{tlsref.SNI("public.example")}, common[:h]...)
+		outer = append(outer, tlsref.Ext{Type: tlsref.ExtECH})
+		outer = append(outer, common[h:]...)
+		outer = append(outer, tlsref.Ext{Type: tlsref.ExtPadding, Data: make([]byte, 7)})
+	}
+	echIdx := slices.IndexFunc(outer, func(e tlsref.Ext) bool { return e.Type == tlsref.ExtECH })
+	inner := []tlsref.Ext{tlsref.SNI(innerName)}
+	if !l.ALPNCommon {
+		if l.ALPNNames > 0 {
+			inner = append(inner, tlsref.ALPN(manyNames(l.ALPNNames)...))
+		} else {
+			inner = append(inner, tlsref.ALPN("h2", "http/1.1"))
+		}
+	}
+	isRef := map[int]bool{}
+	var types []uint16
+	for _, i := range l.Refs {
+		isRef[i] = true
+		types = append(types, common[i].Type)
+	}
+	for i, e := range common {
+		if !isRef[i] {
+			inner = append(inner, e)
+		}
+	}
+	if len(types) > 127 {
+		ev.ToolError("c03: %d references do not fit the marker's one-octet length", len(types))
+	}
+	if len(types) > 0 {
+		inner = slices.Insert(inner, min(l.MarkerAt, len(inner)), tlsref.OuterExtensions(types...))
+	}
+	inner = slices.Insert(inner, min(l.ECHInAt, len(inner)), tlsref.ECHInner())
+	return echx.Spec{
+		Key: key, Suite: tlsref.Suite{KDF: 1, AEAD: l.AEAD},
+		Outer:  &tlsref.Hello{Version: 0x0303, Random: tlsref.DetBytes("outer-random", 32), SessionID: tlsref.DetBytes("sid", l.SID), CipherSuites: []byte{0x13, 0x01, 0x13, 0x03}, Compression: []byte{0}, Exts: outer},
+		EchIdx: echIdx, EncInner: inner, InnerBase: echx.StdInnerBase(), Padding: make([]byte, l.Padding),
+		EphLabel: fmt.Sprintf("c03-%d", l.AEAD),
+	}
+}
+
+// valuesOf reads the host name (RFC 6066 section 3) and the protocol names (RFC 7301 section 3.1) out of a reference hello:
+// "the values of that reconstructed hello", whatever their number.
+func valuesOf(h *tlsref.Hello) (name string, alpn []string) {
+	for _, e := range h.Exts {
+		d := e.Data
+		switch e.Type {
+		case tlsref.ExtSNI:
+			// server_name_list<2>: name_type(1) host_name<2>
+			if len(d) < 5 || d[2] != 0 || 5+(int(d[3])<<8|int(d[4])) != len(d) {
+				ev.ToolError("c03: reference hello with a server_name the generator does not produce: %x", d)
+			}
+			name = string(d[5:])
+		case tlsref.ExtALPN:
+			if len(d) < 2 || 2+(int(d[0])<<8|int(d[1])) != len(d) {
+				ev.ToolError("c03: reference hello with a malformed ALPN list")
+			}
+			for d = d[2:]; len(d) > 0; d = d[1+int(d[0]):] {
+				if 1+int(d[0]) > len(d) {
+					ev.ToolError("c03: reference hello with a malformed ALPN name")
+				}
+				alpn = append(alpn, string(d[1:1+int(d[0])]))
+			}
+		}
+	}
+	return name, alpn
+}
+
+// brief prints a list of names; a long one as its length, its ends and (against want) the first index that differs.
+func brief(l, want []string) string {
+	if len(l) <= 16 {
+		return fmt.Sprintf("%q", l)
+	}
+	d := 0
+	for d < len(l) && d < len(want) && l[d] == want[d] {
+		d++
+	}
+	return fmt.Sprintf("[%d names, first %q, last %q; equal to the other list up to index %d]", len(l), l[0], l[len(l)-1], d)
+}
+
 // SelfValidate checks the reference sender against crypto/tls: a hello sealed by
 // tlsref+hpkeref must be accepted by a tls.Server holding the key.
 func SelfValidate(key echx.KeyPair) error {
@@ -142,7 +275,7 @@ func SelfValidate(key echx.KeyPair) error {
 }
 
 func Run(r *ev.Run) {
-	r.Rule("E1 exhaustive: 3 AEADs x every subset of 6 shared extensions chosen for compression x every position of the ech_outer_extensions marker x 3 positions of the inner ECH extension x 3 outer layouts (ECH first/middle/last, unrelated extensions interleaved) x padding{0,1,31,32} x session-id length{0,1,32} x key_share 36B/1220B x uncompressed shared extensions kept/omitted x session id inside the encoded inner {empty, 7 B, 32 B differing from the outer one}, plus a size family up to 30 kB (outer hello up to 61 kB) (hellos spanning several records, in and out) small hellos fragmented by the client at 11 cut patterns (incl. 3-4 records with a last fragment of 1-12 bytes), reconstructed hellos of exactly k*2^14 and k*2^14 +-1 bytes, inner hellos without server_name and/or ALPN under outer hellos that carry them, inner hellos carrying a padding extension (type 21) of 0/1/199 bytes, and inner hellos whose server name has upper-case letters and whose ALPN list contains GREASE ids (reported verbatim); each sealed by the reference sender and fed to the real NewConn; forwarded record compared byte for byte with the reference reconstruction. distinct = distinct outer-hello byte strings")
+	r.Rule("E1 exhaustive: 3 AEADs x every subset of 6 shared extensions chosen for compression x every position of the ech_outer_extensions marker x 3 positions of the inner ECH extension x 3 outer layouts (ECH first/middle/last, unrelated extensions interleaved) x padding{0,1,31,32} x session-id length{0,1,32} x key_share 36B/1220B x uncompressed shared extensions kept/omitted x session id inside the encoded inner {empty, 7 B, 32 B differing from the outer one}, plus a size family up to 30 kB (outer hello up to 61 kB) (hellos spanning several records, in and out) small hellos fragmented by the client at 11 cut patterns (incl. 3-4 records with a last fragment of 1-12 bytes), reconstructed hellos of exactly k*2^14 and k*2^14 +-1 bytes, inner hellos without server_name and/or ALPN under outer hellos that carry them, inner hellos carrying a padding extension (type 21) of 0/1/199 bytes, and inner hellos whose server name has upper-case letters and whose ALPN list contains GREASE ids (reported verbatim), every reference count 1..127 of ech_outer_extensions (first/last/alternating n of n, n+2 and - at the limit - 128, 129, 200 common extensions), and ALPN lists of 1..20000 names (around every power of two from 2^8 to 2^14), the inner hello's own or taken from the outer hello through a reference, the reported list being the one read out of the reference reconstruction; each sealed by the reference sender and fed to the real NewConn; forwarded record compared byte for byte with the reference reconstruction. distinct = distinct outer-hello byte strings")
 	r.Assume("tlsref/hpkeref reference sender is correct (validated on every run against crypto/tls and RFC 9180 vectors)", "outer hellos do not repeat an extension type")
 	key := echx.NewKey("c03", 7, echx.AllSuites, "public.example")
 	if err := SelfValidate(key); err != nil {
@@ -356,6 +489,119 @@ func Run(r *ev.Run) {
 			extra++
 		}
 	}
+	// round 13: "each ech_outer_extensions reference replaced in place by the referenced outer extensions in order" holds for
+	// every list a client can encode: OuterExtensions<2..254> carries 1..127 references. Every count 1..127 is walked (the
+	// first n / the last n / every other one of the common extensions, up to the limit), with exactly as many common
+	// extensions as references, two more, and - just beyond the limit - 128, 129 and 200 common extensions of which the client
+	// can compress at most 127 and carries the others directly; marker first / behind server_name / last. quick: AEAD, outer
+	// layout and marker position rotate over the cases; thorough: full product.
+	var wide []layout
+	wideTags := map[int]string{}
+	addWide := func(l layout, tag string) {
+		wideTags[len(wide)] = tag
+		wide = append(wide, l)
+	}
+	pick := func(common, n int, how string) []int {
+		var refs []int
+		switch how {
+		case "first":
+			for i := 0; i < n; i++ {
+				refs = append(refs, i)
+			}
+		case "last":
+			for i := common - n; i < common; i++ {
+				refs = append(refs, i)
+			}
+		case "alternate": // every other one from the front, then the tail, n in all
+			for i := 0; i < common && len(refs) < n; i++ {
+				if i%2 == 0 || common-i <= n-len(refs) {
+					refs = append(refs, i)
+				}
+			}
+		}
+		if len(refs) != n {
+			ev.ToolError("c03: pick(%d,%d,%s) chose %d references", common, n, how, len(refs))
+		}
+		return refs
+	}
+	k := 0
+	for n := 1; n <= 127; n++ {
+		commons := []int{n, n + 2}
+		if n == 127 {
+			commons = []int{127, 128, 129, 200}
+		}
+		for _, common := range commons {
+			for _, how := range []string{"first", "last", "alternate"} {
+				if common == n && how != "first" {
+					continue
+				}
+				refs := pick(common, n, how)
+				tag := fmt.Sprintf(":%d-references-%s-of-%d-common-extensions", n, how, common)
+				if r.Thorough() {
+					for _, aead := range []uint16{1, 2, 3} {
+						for ok := 0; ok < 3; ok++ {
+							for _, marker := range []int{0, 1, 999} {
+								addWide(layout{AEAD: aead, Refs: refs, MarkerAt: marker, ECHInAt: []int{0, 2, 999}[(k/2)%3], OuterKind: ok, Padding: paddings[k%4], SID: 32, CommonN: common}, tag)
+								k++
+							}
+						}
+					}
+				} else {
+					addWide(layout{AEAD: uint16(1 + k%3), Refs: refs, MarkerAt: []int{0, 1, 999}[(k/3)%3], ECHInAt: []int{0, 2, 999}[(k/2)%3], OuterKind: (k / 9) % 3, Padding: paddings[k%4], SID: 32, CommonN: common}, tag)
+					k++
+				}
+			}
+		}
+	}
+	refCases := len(wide)
+	// round 13: "ServerName and ALPNProtos report the values of that reconstructed hello" - for protocol name lists of every
+	// size a hello can carry (RFC 7301: ProtocolName protocol_name_list<2..2^16-1>, i.e. some 21000 two-octet names): 1..3
+	// names, then counts around every power of two from 2^8 to 2^14 and some between, up to 20000; the ALPN extension being
+	// the inner hello's own, or one the inner hello takes from the outer hello through a reference (first, in the middle or
+	// last of the referenced ones, or the only one). ALPNProtos() must be the list in the hello the backend receives.
+	for _, n := range []int{1, 2, 3, 100, 255, 256, 257, 511, 512, 513, 1000, 1023, 1024, 1025, 1500, 2047, 2048, 2049, 3000, 4095, 4096, 4097, 6000, 8191, 8192, 8193, 10000, 16383, 16384, 16385, 20000} {
+		for _, v := range []struct {
+			tag    string
+			common bool
+			at     int
+			refs   []int
+		}{
+			{"inner-own", false, 0, []int{0, 1}},
+			{"inner-own-nothing-referenced", false, 0, nil},
+			{"referenced-first", true, 0, []int{0, 1, 2}},
+			{"referenced-middle", true, 3, []int{0, 1, 3, 5}},
+			{"referenced-last", true, 6, []int{1, 2, 6}},
+			{"referenced-alone", true, 2, []int{2}},
+			{"common-not-referenced", true, 2, []int{0, 1}},
+		} {
+			if v.tag == "common-not-referenced" && n > 10000 {
+				continue // the list would stand in the outer hello and in the payload: more than an extensions block<0..2^16-1> holds
+			}
+			common := 6
+			if v.common {
+				common = 7
+			}
+			tag := fmt.Sprintf(":%d-alpn-names-%s", n, v.tag)
+			aeads := []uint16{uint16(1 + k%3)}
+			if r.Thorough() {
+				aeads = []uint16{1, 2, 3}
+			}
+			for _, aead := range aeads {
+				addWide(layout{AEAD: aead, Refs: v.refs, MarkerAt: []int{0, 1, 999}[(k/3)%3], ECHInAt: []int{0, 2, 999}[(k/2)%3], OuterKind: k % 3, Padding: paddings[k%4], SID: 32, CommonN: common, ALPNNames: n, ALPNCommon: v.common, ALPNAt: v.at}, tag)
+				k++
+			}
+		}
+	}
+	enum.ParallelFor(len(wide), func(i int) {
+		b := buildWide(key, wide[i]).Build()
+		if len(tlsref.ExtsBytes(b.Outer.Exts)) > 65535 || b.Expected != nil && len(tlsref.ExtsBytes(b.Expected.Exts)) > 65535 {
+			ev.ToolError("c03: generator produced a hello whose extensions do not fit their two-octet length: %+v", wide[i])
+		}
+		evalBuilt(r, keys, wide[i], b, wideTags[i])
+	})
+	r.Set("reference_count_cases", refCases)
+	r.Set("alpn_name_count_cases", len(wide)-refCases)
+	extra += len(wide)
 	r.Set("boundary_and_optional_extension_cases", extra)
 	r.Set("states", len(cases))
 	r.Set("traces_validated_against_impl", len(cases))
@@ -408,15 +654,27 @@ func evalStream(r *ev.Run, keys []ech.Key, l layout, b echx.Built, stream []byte
 		if l.Verbatim {
 			wantName, wantALPN = verbatimName, verbatimALPN
 		}
+		if l.CommonN > 0 {
+			// round 13: the expected values are read out of the reference reconstruction itself (the hello the backend must
+			// receive), so that the accessors are held to "the values of that reconstructed hello" for lists of any length
+			wantName, wantALPN = valuesOf(b.Expected)
+			n := l.ALPNNames
+			if n == 0 {
+				n = 2 // "h2", "http/1.1"
+			}
+			if len(wantALPN) != n {
+				ev.ToolError("c03: the reference hello lists %d protocol names, the generator meant %d", len(wantALPN), n)
+			}
+		}
 		if res.ServerName != wantName || !slices.Equal(res.ALPN, wantALPN) {
-			r.Violation("reported-name-alpn"+tag, fmt.Sprintf("ServerName=%q ALPN=%v, want %q %v (the values of the reconstructed hello)", res.ServerName, res.ALPN, wantName, wantALPN), replay)
+			r.Violation("reported-name-alpn"+tag, fmt.Sprintf("ServerName=%q ALPN=%s, want %q %s (the values of the reconstructed hello)", res.ServerName, brief(res.ALPN, wantALPN), wantName, brief(wantALPN, res.ALPN)), replay)
 		}
 		// a caller that edits the list it was given must not change what the Conn reports afterwards
 		if l := res.Conn.ALPNProtos(); len(l) > 0 {
 			slices.Reverse(l)
 			l[0] = "tampered"
 			if again := res.Conn.ALPNProtos(); !slices.Equal(again, wantALPN) {
-				r.Violation("reported-alpn-aliases-state"+tag, fmt.Sprintf("after the caller modified the slice returned by ALPNProtos(), a second call reports %q", again), replay)
+				r.Violation("reported-alpn-aliases-state"+tag, fmt.Sprintf("after the caller modified the slice returned by ALPNProtos(), a second call reports %s", brief(again, wantALPN)), replay)
 			}
 		}
 		if len(res.ClientOut) != 0 || res.Closed != 0 {
